@@ -233,6 +233,6 @@ def nontrivial(c):
 
 
 PARTS = [
-    Part("datum", strategy=case, oracle=oracle, nontrivial=nontrivial, n={"quick": 3000, "thorough": 20000},
+    Part("datum", strategy=case, oracle=oracle, nontrivial=nontrivial, n={"quick": 5000, "thorough": 20000},
          sample=lambda c: {"alg": c["alg"], "subset": c["subset"], "gkf": nm.gkf_text(c["net"])[:1000]}),
 ]
